@@ -441,7 +441,7 @@ ATOMIC_MARK = {"openmp": "#pragma omp atomic", "cuda": "atomic", "hip": "atomic"
 
 
 class C20Spec(v_okl.Spec):
-    quick, thorough = (5, 20), (200, 40)
+    quick, thorough = (6, 16), (300, 16)
     program = staticmethod(program)
     render = staticmethod(render)
     nontrivial = staticmethod(nontrivial)
